@@ -111,6 +111,23 @@ func c04Check(c c04Case) (vk.Result, error) {
 		if h.StreamID != c.StreamID || h.Seq != c.Seq || h.Closing != c.Closing || !bytes.Equal(h.Payload, payload) {
 			return res, vk.Violatef("repo decoder reads a different frame from the reference encoding")
 		}
+		// (ii'') the same frame as an independent implementation with its OWN padding policy would send it: any padding
+		// length the one-byte extra-length field can express, on any sequence number
+		for _, pl := range []int{0, 1, 7, 100, 255 - tagLen} {
+			if pl == pad {
+				continue
+			}
+			p := make([]byte, pl)
+			vFill(p, uint64(c.Len)*131+uint64(pl), 0)
+			owire := ref.Encode(vk.RefFrame{StreamID: c.StreamID, Seq: c.Seq, Closing: c.Closing, Payload: payload}, p, tail)
+			var o Frame
+			if err := obfs.deobfuscate(&o, append([]byte(nil), owire...)); err != nil {
+				return res, vk.ViolateSig("foreign-padding-rejected", "repo decoder rejects a valid message of an independent encoder that pads differently (seq %d, payload %d bytes, padding %d bytes, method %s): %v", c.Seq, c.Len, pl, vMethodNames[c.Method], err)
+			}
+			if o.StreamID != c.StreamID || o.Seq != c.Seq || o.Closing != c.Closing || !bytes.Equal(o.Payload, payload) {
+				return res, vk.ViolateSig("foreign-padding-rejected", "repo decoder reads a different frame from an independent encoder's message with %d bytes of padding (seq %d, payload %d bytes)", pl, c.Seq, c.Len)
+			}
+		}
 		// (iii) given the padding bytes (and, for plain, the random tail) the layout is deterministic:
 		// byte-for-byte equality with the reference encoding pins nonce derivation, key use and field order
 		if !bytes.Equal(rwire, wire) {
